@@ -338,6 +338,58 @@ theorem solveS_error {m mb nx : Nat} {s : StateS α} {t : LU.State α m n} (hr :
     have hbm : B.nrows ≠ s.m := by rw [hr.1, hB.2.2.1]; exact hb
     rw [if_pos hbm]
 
+/-- **`solve(B, B)`** (after the repair: the permuted copy is taken from a copy of `B`): `B` ends up,
+in its own class, holding the abstract result -/
+theorem solveSelfS_ok {m mb nx : Nat} {s : StateS α} {t : LU.State α m n} (hr : Rep s t) {B : Store α} {kB : Kind}
+    (Bm : Mat α mb nx) (hB : Is B kB mb nx (fnOf Bm))
+    {d : α} {Y : Mat α m nx} (h : LU.solve t Bm = .ok (d, Y)) :
+    ∃ X', solveSelfS s B = .ok (d, X') ∧ Is X' kB m nx (fnOf Y) := by
+  unfold LU.solve at h
+  by_cases hb : mb = m
+  · rw [dif_pos hb] at h
+    subst hb
+    by_cases hsq : n = mb ∧ 0 < n
+    · rw [dif_pos hsq] at h
+      obtain ⟨hnm, hn⟩ := hsq
+      subst hnm
+      simp only at h
+      by_cases hbt : belowThreshold (minDiag t rfl hn) = true
+      · rw [if_pos hbt] at h; cases h
+      · rw [if_neg hbt] at h
+        by_cases hnx : 0 < nx
+        · rw [if_pos hnx] at h
+          injection h with h
+          injection h with h1 h2
+          subst h1
+          unfold solveSelfS
+          have hbm : ¬ B.nrows ≠ s.m := by rw [hr.1, hB.2.2.1]; simp
+          simp only [hbm, if_false, minDiagS_refines hr hn, ok_bind, hbt]
+          obtain ⟨Bc, ec, hkc, hHc⟩ := copy_holds hB.1 (Store.empty .row)
+          have hkc' : Bc.kind = .row := by rw [hkc]; rfl
+          rw [hB.2.2.1, hB.2.2.2.1] at hHc
+          have hBc := Is.of_holds hHc (by rw [hkc']; exact shape_pos' _ hn hnx)
+          rw [hkc'] at hBc
+          have hBc' : Is Bc .row n nx (fnOf Bm) := hBc.congr (fun a b ha hb' => by
+            have h1 := hB.2.2.2.2 a b ha hb'
+            rw [Store.get_eq_entry hB.1 (by rw [hB.2.2.1]; exact ha) (by rw [hB.2.2.2.1]; exact hb')] at h1
+            injection h1)
+          simp only [ec, liftMx, ok_bind]
+          rw [hr.2.2.2.2, hB.2.2.2.1]
+          obtain ⟨X1, e1, hX1⟩ := permuteCopyS_refines t.piv Bm hBc' rfl hB.1 hn hnx
+          obtain ⟨X2, e2, hX2⟩ := fwdS_refines hr _ hX1
+          obtain ⟨X3, e3, hX3⟩ := backS_refines hr hn _ hX2
+          rw [e1]; simp only [ok_bind]
+          rw [e2]; simp only [ok_bind]
+          rw [e3]; simp only [ok_bind, pure_eq]
+          refine ⟨X3, rfl, ?_⟩
+          have : Y = substitute t rfl (permuteCopy Bm rfl t.piv) := by
+            rw [← h2]
+          rw [this, ← hB.2.1]
+          exact hX3
+        · rw [if_neg hnx] at h; cases h
+    · rw [dif_neg hsq] at h; cases h
+  · rw [dif_neg hb] at h; cases h
+
 /-- a well-formed store is a view of `matOf` of itself -/
 theorem Is.matOf {S : Store α} (hw : S.WF) : Is S S.kind S.nrows S.ncols (fnOf (matOf S)) :=
   (Is.self hw).congr (fun a b ha hb => by simp [LUS.matOf, fnOf_ofFn _ ha hb])
